@@ -110,6 +110,14 @@ func ProfileFor(prop string) *Config {
 		cfg.Oracles = []Oracle{&C05{}}
 	case "C06":
 		cfg.Oracles = []Oracle{C06{}}
+	case "C19", "C19n":
+		// twin worlds from one tape; redaction on (C19) or off (C19n, the built-in sensitivity check)
+		cfg.Gen.NoTruncation = true
+		cfg.Gen.NoAirtime = true
+		cfg.Gen.ForceRedaction = 2
+		if prop == "C19n" {
+			cfg.Gen.ForceRedaction = 1
+		}
 	case "C10":
 		cfg.Fork = true
 	case "C20":
